@@ -979,6 +979,9 @@ func swarmCfg(r *rng, prop string) RunCfg {
 		// repetitions (the library reads none today; a change may)
 		c.ClockVaryPct = []int{5, 30, 80}[r.n(3)]
 	}
+	if prop == "C09" {
+		c.CPUVary = r.pct(50)
+	}
 	return c
 }
 
